@@ -31,7 +31,7 @@ def run(prog, rep):
                ("arith-unary", "result"): "C01.operator-table", ("arith", "raises"): "C01.pow-refuses-foreign-dims"}
     for a in ("sum_values_to", "__add__", "__mul__", "__pow__", "__rtruediv__"):
         prog.method("FlodymArray", a)
-    n = run_array_property(prog, rep, "C01", ["arith", "arith@uniform"], aspects)
+    n = run_array_property(prog, rep, "C01", ["arith", "arith@uniform", "arith@uniform+samenames"], aspects)
     L = len(lists_over("abc" if rep.tier == "quick" else "abcd"))
     rep.rules["C01.operator-table"]["floor"] = L * L * 6
     if rep.exhaustive is None:
